@@ -1,20 +1,36 @@
 import PetgraphModel.Common
 import PetgraphModel.Model.VisitTable
 import PetgraphModel.Spec.VisitSpec
+import PetgraphModel.Model.C06Replay
+import PetgraphModel.Spec.C06Checks
 /-
 C06 driver.
 
-  case <k> <type> <d|u>
-  base <op text> => TABLE     judged: `checkTableWhy` (the clauses of the property) on the table itself
-  view <stack>  => TABLE      exact: TABLE = `applyStack Cfg.asIs stack base`;
+  case <k> <type> <d|u> dbg=<0|1>
+  base <request> => TABLE     <request> = a constructor / mutating call in the request syntax of the vertical that owns
+                              the storage type.  REPLAYED on that vertical's mirror model (`C06R.Store.exec`);
+                              exact: TABLE = `Store.table` of the mirror state (`<type>Table`, Model/C06Views.lean) —
+                                     the tables the `C06_consistent_<Type>` theorems are about;
+                              judged: `checkTableWhy` (the clauses of the property) on the dumped table itself
+  view <stack>  => TABLE      exact: TABLE = `applyStack Cfg.asIs stack base` (base = the dumped base table);
                               judged: `checkTableWhy` on the adaptor's table, and
                                       `abs table` is the same graph as `specStack stack (abs base)`
+  mutview       => TABLE      the table through `&mut g`: every visit trait absent; a trait that is present must answer
+                              what the base table answers
+  dmap <via>    => nw=.. ew=..   `DataMap` through a delegation: the weights of `node_references` / `edge_references`
+                              of the base table, `None` for every id that is not listed there
 
-Known findings (classified narrowly, DESIGN 2.5): a judged failure is attributed to D6/D7/D23/D24 only if
+Run-time checks of the theorems' hypotheses (G-A; `C06_*_check` in Theorems/C06.lean): a request outside the scope of
+the storage theorems (`Store.exec` refuses it) and an adaptor stack that is not `StackOk` (`stackOkB`) are answered
+`SPECFAIL generator left the proved range`; the consistency of the base table — the hypothesis of every adaptor
+theorem — is `checkTableWhy` on the base dump.
+
+Known findings (classified narrowly, DESIGN 2.5): a judged failure is attributed to D6/D7/D23 only if
 (1) the implementation's table is EXACTLY the as-is model's (the model with the recorded defects switched on,
-applied to the base table as observed), (2) at least one switch changes the model's answer for this very line,
-and (3) the ideal model (all switches off, base table repaired) passes the same judge.  A base table is
-attributed to D6 / D7 only for its type and only if the repaired table passes the judge.
+applied to the base table as observed; for a base table: the storage mirror's table), (2) at least one switch changes
+the model's answer for this very line, and (3) the ideal model (all switches off, base table repaired) passes the same
+judge.  A base table is attributed to D6 / D7 only for its type and only if the repaired table passes the judge.
+(D24 is repaired in /repo: no classifier.)
 -/
 namespace PetgraphModel.C06
 open PetgraphModel PetgraphModel.Visit
@@ -184,6 +200,10 @@ structure DState where
   ty : String := ""
   dir : Bool := true
   base : Option Table := none
+  /-- the fields of the last base dump, as text -/
+  baseKV : List (String × String) := []
+  /-- the storage mirror of the base graph (`none`: lost, after a request it could not replay) -/
+  store : Option C06R.Store := none
 
 /-- repairs of the base-type findings that apply to this case's type -/
 def baseRepairs (d : DState) : List (String × (Table → Table)) :=
@@ -192,40 +212,54 @@ def baseRepairs (d : DState) : List (String × (Table → Table)) :=
 
 def repairAll (d : DState) (t : Table) : Table := (baseRepairs d).foldl (fun t r => r.2 t) t
 
-/-- fields that must be `na` for the base type (trait not implemented), and the compact flag -/
-def expectedNa (ty : String) (dir : Bool) : List String × Bool :=
-  match ty with
-  | "graph" | "map" => ([], true)
-  | "stable" => ([], false)
-  | "matrix" => (if dir then ["eb", "eix"] else ["eb", "eix", "nbo", "nbi", "edo", "edi"], false)
-  | "csr" | "list" => (["eb", "eix", "nbo", "nbi", "edo", "edi"], true)
-  | _ => ([], false)
+/-- replay of one `base` request on the storage mirror: the new mirror state, or why there is none.
+`none` = there is no mirror any more (lost earlier in this case: the reason was reported on the line where it was
+lost — a dumped table that differs from the mirror's, or a request outside the theorems' scope); the rest of the case
+is then judged against the specification only. -/
+def replay (d : DState) (req : List String) : Option (Except String C06R.Store) :=
+  match d.store with
+  | none => none
+  | some st =>
+    match C06R.parseReq d.ty d.dir req with
+    | none => some (.error s!"bad request {req}")
+    | some r => some (st.exec r)
 
-def capsDiff (d : DState) (impl : String) : Option String :=
-  let kv := parseKV impl
-  let (na, cpt) := expectedNa d.ty d.dir
-  let keys := ["dir", "ids", "refs", "nc", "nb", "ix", "fx", "er", "ec", "eb", "eix", "nbr", "nbo", "nbi", "ed", "edo", "edi", "adj"]
-  match keys.find? (fun k => ((kv.lookup k).getD "?" == "na") != na.contains k) with
-  | some k => some s!"trait availability of the base type changed at field {k}"
-  | none =>
-    if ((kv.lookup "cpt").getD "?" == "1") != cpt then some "NodeCompactIndexable availability changed" else none
-
-def stepBase (d : DState) (impl : String) : DState × String :=
+def stepBase (d : DState) (req : List String) (impl : String) : DState × String :=
+  let rp := replay d req
   match parseTable impl with
-  | none => ({ d with base := none }, s!"SPECFAIL a visit-trait call panicked or the table is malformed: {impl}")
+  | none => ({ d with base := none, baseKV := [], store := none },
+      s!"SPECFAIL a visit-trait call panicked or the table is malformed: {impl}")
   | some t =>
-    let d' := { d with base := some t }
+    -- exact part: the table computed from the storage mirror
+    let exact : Option String := match rp with
+      | some (.ok st) => firstDiff st.table impl
+      | _ => none
+    -- the mirror is kept only while it is in step with the implementation: after a difference the ids the harness uses
+    -- in later requests are the implementation's, not the mirror's (e.g. another admissible reuse order of removed ids)
+    let store' : Option C06R.Store := match rp, exact with
+      | some (.ok st), none => some st
+      | _, _ => none
+    let d' := { d with base := some t, baseKV := parseKV impl, store := store' }
     let qs := t.ids.getD []
     let why := checkTableWhy qs t
     if why.isEmpty then
-      match capsDiff d impl with
-      | some m => (d', s!"MODELDIFF {m}")
-      | none => (d', "ok")
+      match rp with
+      | some (.error m) =>
+        if m.startsWith "out of scope" then (d', s!"SPECFAIL generator left the proved range: {m}")
+        else if m.startsWith "model fault" then (d', s!"SPECFAIL side condition no-fault of the storage mirror does not hold: {m}")
+        else (d', s!"SPECFAIL {m}")
+      | _ =>
+        match exact with
+        | some m => (d', s!"MODELDIFF base table of {d.ty} differs from the table of the storage mirror at {m}")
+        | none => (d', "ok")
     else
       let fired := (baseRepairs d).filter fun r => r.2 t != t
       let t' := repairAll d t
       if !fired.isEmpty && (checkTableWhy (t'.ids.getD []) t').isEmpty then
-        (d', s!"KNOWN {(fired.map (·.1)).head!} base table of {d.ty}: {why.head!}")
+        match exact with
+        | some m =>
+          (d', s!"MODELDIFF base table of {d.ty} differs from the table of the storage mirror at {m} (its violation of [{why.head!}] is the open finding {(fired.map (·.1)).head!})")
+        | none => (d', s!"KNOWN {(fired.map (·.1)).head!} base table of {d.ty}: {why.head!}")
       else
         (d', s!"SPECFAIL base table of {d.ty} violates: {String.intercalate "; " why}")
 
@@ -234,6 +268,9 @@ def stepView (d : DState) (stack : String) (impl : String) : DState × String :=
   | none, _ => (d, "SPECFAIL view without a usable base table")
   | _, none => (d, s!"SPECFAIL bad stack {stack}")
   | some base, some ops =>
+    if !C06Checks.stackOkB base.directed ops then
+      (d, s!"SPECFAIL generator left the proved range: stack {stack} applies an orientation-dependent edge predicate to an undirected view")
+    else
     match parseTable impl with
     | none => (d, s!"SPECFAIL a visit-trait call panicked through the adaptor or the table is malformed: {impl}")
     | some t =>
@@ -244,11 +281,10 @@ def stepView (d : DState) (stack : String) (impl : String) : DState × String :=
         | none => (d, "ok")
         | some m => (d, s!"MODELDIFF {m}")
       else
-        -- which recorded findings change the model's answer on this very line?
+        -- which recorded OPEN findings change the model's answer on this very line?
         let cands : List (String × Table) :=
           (baseRepairs d).map (fun r => (r.1, applyStack Cfg.asIs ops (r.2 base))) ++
-          [("D23", applyStack { d23 := false, d24 := true } ops base),
-           ("D24", applyStack { d23 := true, d24 := false } ops base)]
+          [("D23", applyStack { Cfg.asIs with d23 := false } ops base)]
         let fired := (cands.filter fun c => c.2 != model).map (·.1)
         let base' := repairAll d base
         let ideal := applyStack Cfg.ideal ops base'
@@ -260,11 +296,58 @@ def stepView (d : DState) (stack : String) (impl : String) : DState × String :=
             | some m => s!"differs from the as-is model at {m}"
           (d, s!"SPECFAIL {stack} over {d.ty} violates: {String.intercalate "; " why} ({exact})")
 
+/-- the table through `&mut g`: `&mut G` forwards `GraphBase`, `Data`, `DataMap`, `DataMapMut` only, so every field is
+`na`; a field that is present (a delegation added to /repo) must be the base table's -/
+def tableKeys : List String :=
+  ["dir", "ids", "refs", "nc", "nb", "ix", "fx", "er", "ec", "eb", "eix", "nbr", "nbo", "nbi", "ed", "edo", "edi", "adj"]
+
+def stepMutView (d : DState) (impl : String) : DState × String :=
+  let kv := parseKV impl
+  let present := tableKeys.filter fun k => (kv.lookup k).getD "?" != "na"
+  match present.find? (fun k => kv.lookup k != d.baseKV.lookup k) with
+  | some k =>
+    (d, s!"SPECFAIL the &mut G delegation answers {k}=[{(kv.lookup k).getD "?"}] but &G answers [{(d.baseKV.lookup k).getD "?"}]")
+  | none =>
+    if present.isEmpty && (kv.lookup "cpt").getD "?" == "0" then (d, "ok")
+    else (d, s!"MODELDIFF trait availability of &mut G changed: {present} (cpt={(kv.lookup "cpt").getD "?"})")
+
+/-- `id:w` / `id:x` items -/
+def pOptW (s : String) : Option (Nat × Option Int) :=
+  match s.splitOn ":" with
+  | [a, "x"] => a.toNat?.map fun a => (a, none)
+  | [a, w] => match a.toNat?, w.toInt? with
+    | some a, some w => some (a, some w)
+    | _, _ => none
+  | _ => none
+
+def stepDmap (d : DState) (via : String) (impl : String) : DState × String :=
+  match d.base with
+  | none => (d, "SPECFAIL dmap without a usable base table")
+  | some base =>
+    let kv := parseKV impl
+    match (kv.lookup "nw").bind (fun s => allSome ((commaList s).map pOptW)),
+          (kv.lookup "ew").bind (fun s => allSome ((commaList s).map pOptW)) with
+    | some nw, some ew =>
+      let refs := base.refs.getD []
+      let er := base.erefs.getD []
+      let badN := nw.find? fun x => refs.lookup x.1 != x.2
+      let badE := ew.find? fun x => ((er.find? fun e => e.id == x.1).map (·.w)) != x.2
+      match badN, badE with
+      | some x, _ => (d, s!"SPECFAIL DataMap::node_weight({x.1}) through [{via}] disagrees with node_references of the graph")
+      | _, some x => (d, s!"SPECFAIL DataMap::edge_weight({x.1}) through [{via}] disagrees with edge_references of the graph")
+      | none, none => (d, "ok")
+    | _, _ => (d, s!"SPECFAIL a DataMap call through [{via}] panicked or the line is malformed: {impl}")
+
 def step (d : DState) (req : List String) (impl : String) : DState × String :=
   match req with
-  | ["case", k, ty, dir] => ({ ty := ty, dir := dir == "d", base := none }, s!"case {k}")
-  | "base" :: _ => stepBase d impl
+  | "case" :: k :: ty :: dir :: rest =>
+    let dirB := dir == "d"
+    let dbg := rest.head? != some "dbg=0"
+    ({ ty := ty, dir := dirB, base := none, store := C06R.Store.init ty dirB dbg }, s!"case {k}")
+  | "base" :: r => stepBase d r impl
   | ["view", stack] => stepView d stack impl
+  | ["mutview"] => stepMutView d impl
+  | ["dmap", via] => stepDmap d via impl
   | _ => (d, s!"SPECFAIL bad request {req}")
 
 end PetgraphModel.C06
